@@ -10,6 +10,8 @@ for p in ["C%02d" % i for i in range(1, 21)]:
         JOBS.append((p, k + 3, "/tmp/seed2-%s/%d" % (p, k), "/tmp/confirm2/%s-%d.json" % (p, k), "/tmp/seedrun2/%s-%d.txt" % (p, k), "round 2: asked for defects in the logic around the arithmetic (guards, dispatch, special cases, canonical form, configuration), not in digit loops"))
     for k in (1, 2):
         JOBS.append((p, k + 5, "/tmp/seed3-%s/%d" % (p, k), "/tmp/confirm3/%s-%d.json" % (p, k), "/tmp/seedrun3/%s-%d.txt" % (p, k), "round 3: asked for changes that look like maintenance work - fast paths, refactors, rerouted forms, type/cfg changes, std helpers with different edge behaviour"))
+    for k in (1, 2):
+        JOBS.append((p, k + 7, "/tmp/seed4-%s/%d" % (p, k), "/tmp/confirm4/%s-%d.json" % (p, k), "/tmp/seedrun4/%s-%d.txt" % (p, k), "round 4: asked for contract drift - one side of two things that are supposed to agree (sibling API forms, trait laws, wrapper vs implementation, documented return/panic conventions)"))
 for (p, k, src, conf, run, rnd) in JOBS:
     if True:
         if not (os.path.exists(src + "/patch.diff") and os.path.exists(conf)):
